@@ -455,6 +455,7 @@ def runMunm (r : Report) (s : Section) (l : Line) (fs : Fields) (bits : Nat) (j 
   r := checkTokM im r s l "MYR" mY
   r := checkTokM im r s l "MTB" mT
   r := checkTokM im r s l "MTR" mT
+  r := checkTokM im r s l "MX" mJ
   r := aliasMonitor r s l
   r := r.addCover s!"munm-opts-{bits}"
   r := r.addCover ("munm-" ++ classOf mJ)
@@ -471,6 +472,10 @@ def runMunm (r : Report) (s : Section) (l : Line) (fs : Fields) (bits : Nat) (j 
   if l.obs.any (fun t => t.endsWith "=panic") then
     let cls := if printRes (unmarshalWith { o with f32Pinned := true } fs j) = "panic" then "env-float32-pointer" else "panic"
     r := r.violation s.idx l.idx s!"loader-panicked class={cls} at=mapping opts={bits} obs=[{joinSp (l.obs.filter fun t => t.endsWith "=panic")}] doc=[{printTree j}]"
+  -- **the options of a call are the options it was given**: the entry point equals the generic tree followed by an
+  -- unmarshaller built from exactly these options (an unmarshaller kept from an earlier call shows here)
+  if g "MJB" ≠ g "MX" then
+    r := r.violation s.idx l.idx s!"options-not-applied class=options opts={bits} MJB=[{g "MJB"}] explicit=[{g "MX"}] doc=[{printTree j}]: mapping.UnmarshalJsonBytes(content, v, opts...) differs from NewUnmarshaler(jsonTagKey, opts...) on the same tree"
   if g "MJB" ≠ g "MJR" ∨ g "MYB" ≠ g "MYR" ∨ g "MTB" ≠ g "MTR" then
     r := r.violation s.idx l.idx s!"reader-differs-from-bytes class=reader opts={bits} MJB=[{g "MJB"}] MJR=[{g "MJR"}] MYB=[{g "MYB"}] MYR=[{g "MYR"}] MTB=[{g "MTB"}] MTR=[{g "MTR"}]"
   if inScope j then
